@@ -57,6 +57,15 @@ register("C01",
          "Trusted: Coq kernel; Model/Sem.v + Model/Single.v hand-written (modelled-not-verified), tied by differential testing; DuckDB evaluates expressions/aggregates; hypothesis composite_cd_free (count_distinct-without-sql on a composite key is known finding C01-K2). No axioms.",
          "Coq proof plan = reference semantics (induction over rows); model/implementation correspondence on generated cases via vm_compute", "DESIGN.md section 6/C01")
 
+register("C02",
+         "Machine-checked Coq theorems for join trees of ANY size and tables of any size: a slot flagged safe along the join steps carries each row of its model in at most one wide row (C02_safe_slots, induction over steps, "
+         "when the declared cardinalities hold in the data); the value computed for a metric equals its aggregation over the DISTINCT connected rows of its own model for plain aggregates on safe slots, for COUNT DISTINCT/MIN/MAX unconditionally, "
+         "and for the symmetric SUM/AVG/COUNT form under unique non-NULL keys, an injective hash and bounded non-NULL integer values (C02_metric_value); adjacency is declaration-side invariant. "
+         "The planning decisions (base model, BFS steps, LEFT/INNER, which metric is symmetric) and the joined query are hand-written models tied to generator.py + DuckDB by executing random forests/queries on both; "
+         "the reference semantics is the property oracle. Three narrow known-finding classes (K1 non-base metric on an unsafe slot, K2 NULL measure under the symmetric form, K3 DOUBLE under the symmetric SUM) are carved out with refutation witnesses.",
+         "Trusted: Coq kernel; Model/Plan.v + Model/Join.v + Model/Mult.v hand-written (modelled-not-verified), tied by differential testing; hash injectivity and value bound are explicit hypotheses; DuckDB as oracle. No axioms.",
+         "Coq induction over join steps (multiplicity invariant) + symmetric-aggregate algebra; model/implementation correspondence on generated forests", "DESIGN.md section 6/C02")
+
 PENDING = "check not built yet in this revision (see DESIGN.md section 10 build order)"
 
 
